@@ -60,3 +60,6 @@ let ghost mid = f.out();''',
 
 UNITS = {'c15_write_quoted': (['C15'], write_quoted_unit)}
 SEARCH = {'c15_write_quoted': ['c15_quoted']}
+BOUNDED = {'C15': [dict(case='c15_values', function='value/src/lib.rs Display for ConstValue (write_list, write_object, numbers, enums), value/src/value_serde.rs + serializer.rs + deserializer.rs, read back by the real parser / serde_json',
+                        bound='20 leaf values (integer boundaries incl. > i64::MAX, floats, control and non-BMP characters, enums) + 60 seeded composite values (lists / objects nested up to 3 levels): print->parse and two JSON round trips',
+                        why='Display of numbers defers to serde_json; serde visitor impls are trait plumbing over third-party traits; the re-parse half is the pest parser. Only write_quoted is under contract')]}
